@@ -1,139 +1,150 @@
+(* AM — the abstract file system: the "plain in-memory reference" that the
+   sequential-semantics properties (C02 C08 C09 C10 C12 C13 C19) speak about.
+   Executable, total, no proofs here (see Proofs/AfsInv.v). *)
 From stdpp Require Import gmap list.
 From Coq Require Import NArith ZArith Lia.
+From V Require Import Model.Lib.
 Open Scope N_scope.
 
-(* ---------- basic types ---------- *)
-Definition byte := N.                         (* 0..255 *)
-Definition name := list N.
-Definition handle := list N.                  (* opaque bytes: 8 LE bytes inum ++ 8 LE bytes gen *)
 Definition inum := N.
-
-Definition BS : N := 4096.
 Definition ROOT : inum := 1.
 
-Section Params.
-Variable name_max : N.        (* PATHCONF name_max *)
-Variable maxfilesize : N.     (* FSINFO maxfilesize *)
-Variable wtmax : N.           (* FSINFO wtmax *)
-Variable ninode : N.
+Record params := {
+  p_name_max : N;        (* PATHCONF name_max *)
+  p_maxfilesize : N;     (* FSINFO maxfilesize *)
+  p_wtmax : N;           (* FSINFO wtmax *)
+  p_ninode : N           (* size of the inode table *)
+}.
 
-(* ---------- little-endian handle codec ---------- *)
-Fixpoint le (n:nat) (x:N) : list N := match n with O => [] | S n => (x mod 256) :: le n (x / 256) end.
-Fixpoint unle (l:list N) : N := match l with [] => 0 | b :: r => b + 256 * unle r end.
-Definition mk_handle (i g:N) : handle := le 8 i ++ le 8 g.
-Definition parse_handle (h:handle) : option (N * N) :=
-  if (N.of_nat (length h) =? 16) && forallb (fun b => b <? 256) h
-  then Some (unle (take 8 h), unle (drop 8 h)) else None.
-
-(* ---------- objects ---------- *)
 Inductive kind := KFile | KDir | KLnk.
 Global Instance kind_eq_dec : EqDecision kind. Proof. solve_decision. Defined.
 
 Record obj := {
   o_kind : kind;
   o_gen : N;
-  o_size : N;                         (* files and symlinks; directories: not compared *)
-  o_data : gmap N (list byte);        (* chunk index -> 4096 bytes; absent = zeros *)
-  o_ents : gmap name inum;            (* directories: entries other than "." and ".." *)
-  o_parent : inum;                    (* the directory that names this object (root: itself) *)
-  o_atime : option (N * N);           (* Some = set by the client and hence comparable *)
+  o_size : N;                       (* files and symlinks *)
+  o_data : gmap N bytes;            (* chunk index -> BS bytes; absent = zeros *)
+  o_ents : gmap name inum;          (* directories: entries other than "." and ".." *)
+  o_parent : inum;                  (* the directory naming this object (root: itself) *)
+  o_atime : option (N * N);         (* Some = set by the client, hence comparable *)
   o_mtime : option (N * N)
 }.
 
 Record afs := {
   objs : gmap inum obj;
-  issued : gset (N * N);              (* every (inum, gen) ever handed out *)
-  unstable_opt : bool                 (* server option: unstable writes honoured *)
+  issued : gset (N * N);            (* every (inum, gen) ever handed out *)
+  unstable_opt : bool               (* server option: unstable writes honoured *)
 }.
 
-Definition set_obj (s:afs) (i:inum) (o:obj) : afs :=
+Definition set_obj (s : afs) (i : inum) (o : obj) : afs :=
   {| objs := <[i := o]> (objs s); issued := issued s; unstable_opt := unstable_opt s |}.
-Definition del_obj (s:afs) (i:inum) : afs :=
+Definition del_obj (s : afs) (i : inum) : afs :=
   {| objs := delete i (objs s); issued := issued s; unstable_opt := unstable_opt s |}.
 
-(* ---------- sparse contents ---------- *)
-Definition zeros (n:N) : list byte := replicate (N.to_nat n) 0.
-Definition chunk (o:obj) (i:N) : list byte := default (zeros BS) (o_data o !! i).
+Definition with_ents (d : obj) (e : gmap name inum) : obj :=
+  {| o_kind := o_kind d; o_gen := o_gen d; o_size := o_size d; o_data := o_data d;
+     o_ents := e; o_parent := o_parent d; o_atime := o_atime d; o_mtime := o_mtime d |}.
+Definition with_parent (d : obj) (p : inum) : obj :=
+  {| o_kind := o_kind d; o_gen := o_gen d; o_size := o_size d; o_data := o_data d;
+     o_ents := o_ents d; o_parent := p; o_atime := o_atime d; o_mtime := o_mtime d |}.
+Definition with_content (o : obj) (sz : N) (m : gmap N bytes) : obj :=
+  {| o_kind := o_kind o; o_gen := o_gen o; o_size := sz; o_data := m;
+     o_ents := o_ents o; o_parent := o_parent o; o_atime := o_atime o; o_mtime := o_mtime o |}.
+Definition with_times (o : obj) (a m : option (N * N)) : obj :=
+  {| o_kind := o_kind o; o_gen := o_gen o; o_size := o_size o; o_data := o_data o;
+     o_ents := o_ents o; o_parent := o_parent o; o_atime := a; o_mtime := m |}.
 
-(* bytes [off, off+cnt) of the object, cnt small enough to build a list (caller clamps to size) *)
-Fixpoint read_chunks (o:obj) (fuel:nat) (ci:N) (skip:N) (cnt:N) : list byte :=
+(* ---------- sparse contents ---------- *)
+Definition chunk_of (m : gmap N bytes) (i : N) : bytes := default zero_block (m !! i).
+
+Fixpoint read_chunks (m : gmap N bytes) (fuel : nat) (ci skip cnt : N) : bytes :=
   match fuel with
   | O => []
   | S f => if cnt =? 0 then [] else
-           let c := drop (N.to_nat skip) (chunk o ci) in
            let take_n := N.min cnt (BS - skip) in
-           take (N.to_nat take_n) c ++ read_chunks o f (ci + 1) 0 (cnt - take_n)
+           takeN take_n (dropN skip (chunk_of m ci)) ++ read_chunks m f (ci + 1) 0 (cnt - take_n)
   end.
-Definition read_bytes (o:obj) (off cnt:N) : list byte :=
-  read_chunks o (N.to_nat (cnt / BS) + 2) (off / BS) (off mod BS) cnt.
+(* bytes [off, off+cnt); the caller clamps cnt to the size, so cnt is bounded by data present *)
+Definition read_bytes (m : gmap N bytes) (off cnt : N) : bytes :=
+  read_chunks m (N.to_nat (cnt / BS) + 2) (off / BS) (off mod BS) cnt.
 
-Definition splice (l:list byte) (off:N) (d:list byte) : list byte :=
-  take (N.to_nat off) l ++ d ++ drop (N.to_nat off + length d) l.
-
-Fixpoint write_chunks (m:gmap N (list byte)) (fuel:nat) (ci:N) (skip:N) (d:list byte) : gmap N (list byte) :=
+Fixpoint write_chunks (m : gmap N bytes) (fuel : nat) (ci skip : N) (d : bytes) : gmap N bytes :=
   match fuel with
   | O => m
   | S f => match d with [] => m | _ =>
-           let room := N.to_nat (BS - skip) in
-           let now := take room d in
-           let c := default (zeros BS) (m !! ci) in
-           write_chunks (<[ci := splice c skip now]> m) f (ci + 1) 0 (drop room d) end
+           let room := BS - skip in
+           write_chunks (<[ci := splice (chunk_of m ci) skip (takeN room d)]> m) f (ci + 1) 0 (dropN room d) end
   end.
-Definition write_bytes (o:obj) (off:N) (d:list byte) : gmap N (list byte) :=
-  write_chunks (o_data o) (length d / 4096 + 2) (off / BS) (off mod BS) d.
+Definition write_bytes (m : gmap N bytes) (off : N) (d : bytes) : gmap N bytes :=
+  write_chunks m (length d / 4096 + 2) (off / BS) (off mod BS) d.
 
-(* truncate: drop whole chunks at or above the new end, zero the tail of the last one *)
-Definition trunc_data (m:gmap N (list byte)) (sz:N) : gmap N (list byte) :=
+(* truncate: drop chunks at or above the new end, zero the tail of the last one *)
+Definition trunc_data (m : gmap N bytes) (sz : N) : gmap N bytes :=
   let last := sz / BS in
-  let m1 := filter (fun p => fst p <? last + (if sz mod BS =? 0 then 0 else 1)) m in
-  if sz mod BS =? 0 then m1 else
-  match m1 !! last with
-  | Some c => <[last := take (N.to_nat (sz mod BS)) c ++ zeros (BS - sz mod BS)]> m1
-  | None => m1
-  end.
+  if sz mod BS =? 0 then filter (fun p => fst p <? last) m
+  else
+    let m1 := filter (fun p => fst p <? last + 1) m in
+    match m1 !! last with
+    | Some c => <[last := takeN (sz mod BS) c ++ zeros (BS - sz mod BS)]> m1
+    | None => m1
+    end.
 
 (* ---------- calls and replies ---------- *)
-Inductive settime := DontChange | ServerTime | ClientTime (t:N*N).
-Inductive stable := Unstable | DataSync | FileSync | BadStable (n:N).
+Inductive settime := DontChange | ServerTime | ClientTime (t : N * N).
+Inductive stable := Unstable | DataSync | FileSync.
 
 Inductive call :=
-| CGetattr (h:handle)
-| CSetattr (h:handle) (size:option N) (at_ mt:settime)
-| CLookup (h:handle) (n:name)
-| CAccess (h:handle)
-| CReadlink (h:handle)
-| CRead (h:handle) (off cnt:N)
-| CWrite (h:handle) (off cnt:N) (st:stable) (d:list byte)
-| CCreate (h:handle) (n:name) (exclusive:bool)
-| CMkdir (h:handle) (n:name)
-| CSymlink (h:handle) (n:name) (target:list byte)
-| CRemove (h:handle) (n:name)
-| CRmdir (h:handle) (n:name)
-| CRename (h1:handle) (n1:name) (h2:handle) (n2:name)
-| CCommit (h:handle) (off cnt:N)
-| CUnsupported                                 (* MKNOD, LINK, FSSTAT *)
-| CRestart.                                    (* clean restart: no observable change *)
+| CGetattr (h : handle)
+| CSetattr (h : handle) (size : option N) (at_ mt : settime)
+| CLookup (h : handle) (n : name)
+| CAccess (h : handle)
+| CReadlink (h : handle)
+| CRead (h : handle) (off cnt : N)
+| CWrite (h : handle) (off cnt : N) (st : stable) (d : bytes)
+| CCreate (h : handle) (n : name) (exclusive : bool)
+| CMkdir (h : handle) (n : name)
+| CSymlink (h : handle) (n : name) (target : bytes)
+| CRemove (h : handle) (n : name)
+| CRmdir (h : handle) (n : name)
+| CRename (h1 : handle) (n1 : name) (h2 : handle) (n2 : name)
+| CReaddir (h : handle) (cookie : N)              (* both READDIR and READDIRPLUS *)
+| CCommit (h : handle) (off cnt : N)
+| CFsinfo (h : handle)
+| CPathconf (h : handle)
+| CUnsupported                                    (* MKNOD, LINK, FSSTAT *)
+| CNull
+| CRestart.                                       (* clean restart: no observable change *)
 
 Inductive status := OK | STALE | NOTSUPP | ERR.   (* failure classes *)
-Record attrs := { a_kind : kind; a_size : option N; a_fileid : inum;
-                  a_atime : option (N*N); a_mtime : option (N*N) }.
-Inductive reply :=
-| RStatus (s:status)
-| RAttrs (a:attrs)
-| RHandle (h:handle) (a:attrs)
-| RData (d:list byte) (eof:option bool)          (* None = either value accepted *)
-| RWritten (cnt:N) (committed:stable) (a:attrs)
-| RLink (d:list byte).
+Global Instance status_eq_dec : EqDecision status. Proof. solve_decision. Defined.
 
-Definition attrs_of (i:inum) (o:obj) : attrs :=
+Record attrs := { a_kind : kind; a_size : option N; a_fileid : inum;
+                  a_atime : option (N * N); a_mtime : option (N * N) }.
+Inductive reply :=
+| RStatus (s : status)
+| RAttrs (a : attrs)
+| RHandle (h : handle) (a : attrs)
+| RData (d : bytes) (eof : option bool)           (* None = either value accepted *)
+| RWritten (cnt : N) (committed : stable) (a : attrs)
+| RLink (d : bytes)
+| RDir (di : inum) (cookie : N)                   (* checked relationally, see Agree.v *)
+| RFsinfo (wtmax maxfilesize : N)
+| RPathconf (name_max : N).
+
+Definition attrs_of (i : inum) (o : obj) : attrs :=
   {| a_kind := o_kind o; a_size := (if decide (o_kind o = KDir) then None else Some (o_size o));
      a_fileid := i; a_atime := o_atime o; a_mtime := o_mtime o |}.
 
-(* ---------- handle resolution ---------- *)
-Definition resolve (s:afs) (h:handle) : option (inum * obj) :=
+(* what the implementation did about resources for a creating call *)
+Inductive hint := HNone | HHandle (h : handle) | HNoSpace.
+
+Section WithParams.
+Variable P : params.
+
+Definition resolve (s : afs) (h : handle) : option (inum * obj) :=
   match parse_handle h with
   | Some (i, g) =>
-      if (i <? ninode) then
+      if i <? p_ninode P then
         match objs s !! i with
         | Some o => if o_gen o =? g then Some (i, o) else None
         | None => None
@@ -142,118 +153,103 @@ Definition resolve (s:afs) (h:handle) : option (inum * obj) :=
   | None => None
   end.
 
-(* ---------- names ---------- *)
-Definition dot : name := [46]. Definition dotdot : name := [46;46].
-Definition wf_name (n:name) : bool :=
-  negb (N.of_nat (length n) =? 0) && (N.of_nat (length n) <=? name_max) &&
-  forallb (fun b => negb (b =? 47) && negb (b =? 0) && (b <? 256)) n &&
+Definition is_dir (o : obj) : bool := bool_decide (o_kind o = KDir).
+
+Definition wf_name (n : name) : bool :=
+  negb (lenN n =? 0) && (lenN n <=? p_name_max P) &&
+  forallb (fun b => negb (bool_decide (b = b_slash)) && negb (bool_decide (b = x00))) n &&
   negb (bool_decide (n = dot)) && negb (bool_decide (n = dotdot)).
 
-Definition lookup_name (i:inum) (d:obj) (n:name) : option inum :=
+Definition is_dots (n : name) : bool := bool_decide (n = dot) || bool_decide (n = dotdot).
+
+Definition lookup_name (i : inum) (d : obj) (n : name) : option inum :=
   if bool_decide (n = dot) then Some i
   else if bool_decide (n = dotdot) then Some (o_parent d)
   else o_ents d !! n.
 
-(* is `anc` an ancestor-or-self of directory i ? (walk up with fuel) *)
-Fixpoint is_ancestor (s:afs) (fuel:nat) (anc i:inum) : bool :=
+(* is [anc] an ancestor-or-self of directory i ?  fuel bounds the depth *)
+Fixpoint is_ancestor (s : afs) (fuel : nat) (anc i : inum) : bool :=
   if i =? anc then true else
   match fuel with O => false | S f =>
     match objs s !! i with
     | Some o => if o_parent o =? i then false else is_ancestor s f anc (o_parent o)
     | None => false end end.
 
-(* ---------- the step function ---------- *)
-Definition new_obj (k:kind) (g:N) (parent:inum) : obj :=
+Definition new_obj (k : kind) (g : N) (parent : inum) : obj :=
   {| o_kind := k; o_gen := g; o_size := 0; o_data := ∅; o_ents := ∅; o_parent := parent;
      o_atime := None; o_mtime := None |}.
 
-Definition upd_time (cur:option (N*N)) (t:settime) : option (N*N) :=
+Definition upd_time (cur : option (N * N)) (t : settime) : option (N * N) :=
   match t with DontChange => cur | ServerTime => None | ClientTime x => Some x end.
 
-(* hint = the handle the implementation returned for a creating call *)
-Definition create (s:afs) (h:handle) (n:name) (k:kind) (content:list byte) (hint:option handle) : afs * reply :=
+(* fresh: not live, never issued, inside the table, not reserved *)
+Definition fresh (s : afs) (i g : N) : bool :=
+  negb (bool_decide (is_Some (objs s !! i))) && negb (bool_decide ((i, g) ∈ issued s)) &&
+  (2 <=? i) && (i <? p_ninode P) && (1 <=? g).
+
+Definition create (s : afs) (h : handle) (n : name) (k : kind) (content : bytes) (hi : hint) : afs * reply :=
   match resolve s h with
   | None => (s, RStatus STALE)
   | Some (di, d) =>
-    if negb (bool_decide (o_kind d = KDir)) then (s, RStatus ERR) else
+    if negb (is_dir d) then (s, RStatus ERR) else
     if negb (wf_name n) then (s, RStatus ERR) else
     if bool_decide (is_Some (o_ents d !! n)) then (s, RStatus ERR) else
-    if wtmax <=? N.of_nat (length content) then (s, RStatus ERR) else
-    match hint with
-    | None => (s, RStatus ERR)                      (* resource failure reported by the implementation: no effect *)
-    | Some hh =>
+    if p_wtmax P <? lenN content then (s, RStatus ERR) else
+    match hi with
+    | HNone | HNoSpace => (s, RStatus ERR)            (* resource failure: no effect *)
+    | HHandle hh =>
       match parse_handle hh with
       | Some (i, g) =>
-        (* the implementation's choice must be fresh: inode not live, handle never issued *)
-        if bool_decide (is_Some (objs s !! i)) || bool_decide ((i,g) ∈ issued s) || (i <? 2) || negb (i <? ninode)
-        then (s, RStatus ERR)   (* the driver reports this as a C08 violation *)
+        if negb (fresh s i g) then (s, RStatus ERR)   (* reported as a C08 violation by the driver *)
         else
-          let o0 := new_obj k g di in
-          let o := {| o_kind := k; o_gen := g; o_size := N.of_nat (length content);
-                      o_data := write_bytes o0 0 content; o_ents := ∅; o_parent := di;
-                      o_atime := None; o_mtime := None |} in
-          let d' := {| o_kind := o_kind d; o_gen := o_gen d; o_size := o_size d; o_data := o_data d;
-                       o_ents := <[n := i]> (o_ents d); o_parent := o_parent d;
-                       o_atime := o_atime d; o_mtime := o_mtime d |} in
-          ({| objs := <[i := o]> (<[di := d']> (objs s)); issued := {[ (i,g) ]} ∪ issued s;
-              unstable_opt := unstable_opt s |},
+          let o := with_content (new_obj k g di) (lenN content) (write_bytes ∅ 0 content) in
+          ({| objs := <[i := o]> (<[di := with_ents d (<[n := i]> (o_ents d))]> (objs s));
+              issued := {[ (i, g) ]} ∪ issued s; unstable_opt := unstable_opt s |},
            RHandle hh (attrs_of i o))
       | None => (s, RStatus ERR)
       end
     end
   end.
-Definition with_ents (d:obj) (e:gmap name inum) : obj :=
-  {| o_kind := o_kind d; o_gen := o_gen d; o_size := o_size d; o_data := o_data d;
-     o_ents := e; o_parent := o_parent d; o_atime := o_atime d; o_mtime := o_mtime d |}.
-Definition with_parent (d:obj) (p:inum) : obj :=
-  {| o_kind := o_kind d; o_gen := o_gen d; o_size := o_size d; o_data := o_data d;
-     o_ents := o_ents d; o_parent := p; o_atime := o_atime d; o_mtime := o_mtime d |}.
-Definition with_content (o:obj) (sz:N) (m:gmap N (list byte)) : obj :=
-  {| o_kind := o_kind o; o_gen := o_gen o; o_size := sz; o_data := m;
-     o_ents := o_ents o; o_parent := o_parent o; o_atime := o_atime o; o_mtime := o_mtime o |}.
-Definition with_times (o:obj) (a m:option (N*N)) : obj :=
-  {| o_kind := o_kind o; o_gen := o_gen o; o_size := o_size o; o_data := o_data o;
-     o_ents := o_ents o; o_parent := o_parent o; o_atime := a; o_mtime := m |}.
 
-(* unlink object i named n in directory (di,d); the object disappears (no hard links) *)
-Definition unlink (s:afs) (di:inum) (d:obj) (n:name) (i:inum) : afs :=
+Definition unlink (s : afs) (di : inum) (d : obj) (n : name) (i : inum) : afs :=
   del_obj (set_obj s di (with_ents d (delete n (o_ents d)))) i.
 
-Definition remove (s:afs) (h:handle) (n:name) (want_dir:bool) : afs * reply :=
-  if bool_decide (n = dot) || bool_decide (n = dotdot) then (s, RStatus ERR) else
+Definition remove (s : afs) (h : handle) (n : name) (want_dir : bool) : afs * reply :=
+  if is_dots n then (s, RStatus ERR) else
   match resolve s h with
   | None => (s, RStatus STALE)
   | Some (di, d) =>
-    match (if bool_decide (o_kind d = KDir) then o_ents d !! n else None) with
+    match (if is_dir d then o_ents d !! n else None) with
     | None => (s, RStatus ERR)
     | Some i =>
       match objs s !! i with
-      | None => (s, RStatus ERR)               (* cannot happen under afs_inv *)
+      | None => (s, RStatus ERR)               (* excluded by afs_inv *)
       | Some o =>
         if want_dir then
-          if negb (bool_decide (o_kind o = KDir)) then (s, RStatus ERR)
+          if negb (is_dir o) then (s, RStatus ERR)
           else if negb (bool_decide (o_ents o = ∅)) then (s, RStatus ERR)
           else (unlink s di d n i, RStatus OK)
         else
-          if bool_decide (o_kind o = KDir) then (s, RStatus ERR)
+          if is_dir o then (s, RStatus ERR)
           else (unlink s di d n i, RStatus OK)
       end
     end
   end.
 
-Definition move (s:afs) (d1i:inum) (d1:obj) (n1:name) (d2i:inum) (d2:obj) (n2:name) (fi:inum) (fo:obj) : afs :=
-  let d1' := with_ents d1 (delete n1 (o_ents d1)) in
-  let s2 := set_obj s d1i d1' in
-  let d2cur := default d2 (objs s2 !! d2i) in
-  let s3 := set_obj s2 d2i (with_ents d2cur (<[n2 := fi]> (o_ents d2cur))) in
-  set_obj s3 fi (with_parent fo d2i).
+Definition move (s : afs) (d1i : inum) (n1 : name) (d2i : inum) (n2 : name) (fi : inum) : afs :=
+  let s2 := match objs s !! d1i with
+            | Some d1 => set_obj s d1i (with_ents d1 (delete n1 (o_ents d1))) | None => s end in
+  let s3 := match objs s2 !! d2i with
+            | Some d2 => set_obj s2 d2i (with_ents d2 (<[n2 := fi]> (o_ents d2))) | None => s2 end in
+  match objs s3 !! fi with
+  | Some fo => set_obj s3 fi (with_parent fo d2i) | None => s3 end.
 
-Definition rename (s:afs) (h1:handle) (n1:name) (h2:handle) (n2:name) : afs * reply :=
-  if bool_decide (n1 = dot) || bool_decide (n1 = dotdot) then (s, RStatus ERR) else
+Definition rename (s : afs) (h1 : handle) (n1 : name) (h2 : handle) (n2 : name) : afs * reply :=
+  if is_dots n1 then (s, RStatus ERR) else
   match resolve s h1, resolve s h2 with
   | None, _ | _, None => (s, RStatus STALE)
   | Some (d1i, d1), Some (d2i, d2) =>
-    if negb (bool_decide (o_kind d1 = KDir)) || negb (bool_decide (o_kind d2 = KDir)) then (s, RStatus ERR) else
+    if negb (is_dir d1) || negb (is_dir d2) then (s, RStatus ERR) else
     match o_ents d1 !! n1 with
     | None => (s, RStatus ERR)
     | Some fi =>
@@ -262,76 +258,80 @@ Definition rename (s:afs) (h1:handle) (n1:name) (h2:handle) (n2:name) : afs * re
       | None => (s, RStatus ERR)
       | Some fo =>
         (* a directory may not be moved into its own subtree *)
-        if bool_decide (o_kind fo = KDir) && is_ancestor s (N.to_nat ninode) fi d2i then (s, RStatus ERR) else
+        if is_dir fo && is_ancestor s (N.to_nat (p_ninode P)) fi d2i then (s, RStatus ERR) else
         match o_ents d2 !! n2 with
         | Some ti =>
-          if (ti =? fi) then (s, RStatus OK) else           (* same object: no-op *)
+          if ti =? fi then (s, RStatus OK) else           (* same object: no-op *)
           match objs s !! ti with
           | None => (s, RStatus ERR)
           | Some to =>
             if negb (bool_decide (o_kind to = o_kind fo)) then (s, RStatus ERR)
-            else if bool_decide (o_kind to = KDir) && negb (bool_decide (o_ents to = ∅)) then (s, RStatus ERR)
-            else (move (del_obj s ti) d1i d1 n1 d2i d2 n2 fi fo, RStatus OK)
+            else if is_dir to && negb (bool_decide (o_ents to = ∅)) then (s, RStatus ERR)
+            else (move (del_obj s ti) d1i n1 d2i n2 fi, RStatus OK)
           end
-        | None => (move s d1i d1 n1 d2i d2 n2 fi fo, RStatus OK)
+        | None => (move s d1i n1 d2i n2 fi, RStatus OK)
         end
       end
     end
   end.
 
-Definition do_read (s:afs) (h:handle) (off cnt:N) : afs * reply :=
+Definition do_read (s : afs) (h : handle) (off cnt : N) : afs * reply :=
   match resolve s h with
   | None => (s, RStatus STALE)
   | Some (i, o) =>
     if negb (bool_decide (o_kind o = KFile)) then (s, RStatus ERR) else
     if o_size o <=? off then (s, RData [] (Some true))
     else let c := N.min cnt (o_size o - off) in
-         (s, RData (read_bytes o off c) (if off + c <? o_size o then Some false else None))
+         (s, RData (read_bytes (o_data o) off c) (if off + c <? o_size o then Some false else None))
   end.
 
-Definition do_write (s:afs) (h:handle) (off cnt:N) (st:stable) (d:list byte) : afs * reply :=
+Definition do_write (s : afs) (h : handle) (off cnt : N) (st : stable) (d : bytes) (hi : hint) : afs * reply :=
   match resolve s h with
   | None => (s, RStatus STALE)
   | Some (i, o) =>
     if negb (bool_decide (o_kind o = KFile)) then (s, RStatus ERR) else
-    if negb (cnt =? N.of_nat (length d)) then (s, RStatus ERR) else
-    if wtmax <? cnt then (s, RStatus ERR) else
-    if maxfilesize <? off + cnt then (s, RStatus ERR) else        (* unbounded N: no wrap *)
-    match st with
-    | BadStable _ => (s, RStatus ERR)
+    if negb (cnt =? lenN d) then (s, RStatus ERR) else
+    if p_wtmax P <? cnt then (s, RStatus ERR) else
+    if p_maxfilesize P <? off + cnt then (s, RStatus ERR) else        (* unbounded N: no wrap *)
+    match hi with
+    | HNoSpace => (s, RStatus ERR)
     | _ =>
-      let o' := with_content o (N.max (o_size o) (off + cnt)) (write_bytes o off d) in
+      let o' := with_content o (N.max (o_size o) (off + cnt)) (write_bytes (o_data o) off d) in
       let committed := if unstable_opt s then st else FileSync in
       (set_obj s i o', RWritten cnt committed (attrs_of i o'))
     end
   end.
 
-Definition do_setattr (s:afs) (h:handle) (size:option N) (at_ mt:settime) : afs * reply :=
+Definition do_setattr (s : afs) (h : handle) (size : option N) (at_ mt : settime) (hi : hint) : afs * reply :=
   match resolve s h with
   | None => (s, RStatus STALE)
   | Some (i, o) =>
     match size with
     | Some sz =>
       if negb (bool_decide (o_kind o = KFile)) then (s, RStatus ERR) else
-      if maxfilesize <? sz then (s, RStatus ERR) else
-      let m := if sz <? o_size o then trunc_data (o_data o) sz else o_data o in
-      let o' := with_times (with_content o sz m) (upd_time (o_atime o) at_) (upd_time (o_mtime o) mt) in
-      (set_obj s i o', RAttrs (attrs_of i o'))
+      if p_maxfilesize P <? sz then (s, RStatus ERR) else
+      match hi with
+      | HNoSpace => (s, RStatus ERR)
+      | _ =>
+        let m := if sz <? o_size o then trunc_data (o_data o) sz else o_data o in
+        let o' := with_times (with_content o sz m) (upd_time (o_atime o) at_) (upd_time (o_mtime o) mt) in
+        (set_obj s i o', RAttrs (attrs_of i o'))
+      end
     | None =>
       let o' := with_times o (upd_time (o_atime o) at_) (upd_time (o_mtime o) mt) in
       (set_obj s i o', RAttrs (attrs_of i o'))
     end
   end.
 
-Definition step (s:afs) (c:call) (hint:option handle) : afs * reply :=
+Definition step (s : afs) (c : call) (hi : hint) : afs * reply :=
   match c with
-  | CGetattr h => match resolve s h with Some (i,o) => (s, RAttrs (attrs_of i o)) | None => (s, RStatus STALE) end
-  | CSetattr h sz a m => do_setattr s h sz a m
+  | CGetattr h => match resolve s h with Some (i, o) => (s, RAttrs (attrs_of i o)) | None => (s, RStatus STALE) end
+  | CSetattr h sz a m => do_setattr s h sz a m hi
   | CLookup h n =>
       match resolve s h with
       | None => (s, RStatus STALE)
       | Some (di, d) =>
-        if negb (bool_decide (o_kind d = KDir)) then (s, RStatus ERR) else
+        if negb (is_dir d) then (s, RStatus ERR) else
         match lookup_name di d n with
         | Some i => match objs s !! i with
                     | Some o => (s, RHandle (mk_handle i (o_gen o)) (attrs_of i o))
@@ -343,45 +343,42 @@ Definition step (s:afs) (c:call) (hint:option handle) : afs * reply :=
   | CReadlink h =>
       match resolve s h with
       | None => (s, RStatus STALE)
-      | Some (i, o) => if bool_decide (o_kind o = KLnk) then (s, RLink (read_bytes o 0 (o_size o))) else (s, RStatus ERR)
+      | Some (i, o) => if bool_decide (o_kind o = KLnk) then (s, RLink (read_bytes (o_data o) 0 (o_size o)))
+                       else (s, RStatus ERR)
       end
   | CRead h off cnt => do_read s h off cnt
-  | CWrite h off cnt st d => do_write s h off cnt st d
-  | CCreate h n excl => if excl then (s, RStatus NOTSUPP) else create s h n KFile [] hint
-  | CMkdir h n => create s h n KDir [] hint
-  | CSymlink h n t => create s h n KLnk t hint
+  | CWrite h off cnt st d => do_write s h off cnt st d hi
+  | CCreate h n excl => if excl then (s, RStatus NOTSUPP) else create s h n KFile [] hi
+  | CMkdir h n => create s h n KDir [] hi
+  | CSymlink h n t => create s h n KLnk t hi
   | CRemove h n => remove s h n false
   | CRmdir h n => remove s h n true
   | CRename h1 n1 h2 n2 => rename s h1 n1 h2 n2
+  | CReaddir h cookie =>
+      match resolve s h with
+      | None => (s, RStatus STALE)
+      | Some (i, o) => if is_dir o then (s, RDir i cookie) else (s, RStatus ERR)
+      end
   | CCommit h off cnt =>
       match resolve s h with
       | None => (s, RStatus STALE)
       | Some (i, o) => if negb (bool_decide (o_kind o = KFile)) then (s, RStatus ERR)
                        else if o_size o <? off + cnt then (s, RStatus ERR) else (s, RStatus OK)
       end
+  | CFsinfo h => (s, RFsinfo (p_wtmax P) (p_maxfilesize P))
+  | CPathconf h => (s, RPathconf (p_name_max P))
   | CUnsupported => (s, RStatus NOTSUPP)
+  | CNull => (s, RStatus OK)
   | CRestart => (s, RStatus OK)
   end.
 
-Definition init_afs (unst:bool) : afs :=
-  {| objs := {[ ROOT := new_obj KDir 1 ROOT ]}; issued := {[ (ROOT, 1) ]}; unstable_opt := unst |}.
-End Params.
+Definition run (s : afs) (cs : list (call * hint)) : afs :=
+  fold_left (fun s ch => fst (step s (fst ch) (snd ch))) cs s.
 
-(* ---------- smoke tests by computation ---------- *)
-Definition st0 := init_afs true.
-Definition P := step 112 1082130432 2093056 32768.
-Definition root_h := mk_handle 1 1.
-Definition run1 :=
-  let '(s1, r1) := P st0 (CMkdir root_h [100] ) (Some (mk_handle 2 1)) in
-  let '(s2, r2) := P s1 (CCreate (mk_handle 2 1) [102] false) (Some (mk_handle 3 1)) in
-  let '(s3, r3) := P s2 (CWrite (mk_handle 3 1) 4090 10 FileSync [1;2;3;4;5;6;7;8;9;10]) None in
-  let '(s4, r4) := P s3 (CRead (mk_handle 3 1) 4088 100) None in
-  let '(s5, r5) := P s4 (CSetattr (mk_handle 3 1) (Some 4093) DontChange DontChange) None in
-  let '(s6, r6) := P s5 (CSetattr (mk_handle 3 1) (Some 4100) DontChange DontChange) None in
-  let '(s7, r7) := P s6 (CRead (mk_handle 3 1) 4088 100) None in
-  let '(s8, r8) := P s7 (CRename root_h [100] (mk_handle 2 1) [120]) None in
-  let '(s9, r9) := P s8 (CRemove root_h [100]) None in
-  let '(s10, r10) := P s9 (CRemove (mk_handle 2 1) [102]) None in
-  let '(s11, r11) := P s10 (CGetattr (mk_handle 3 1)) None in
-  (r4, r7, r8, r9, r10, r11).
-Eval vm_compute in run1.
+End WithParams.
+
+Definition set_unstable (s : afs) (b : bool) : afs :=
+  {| objs := objs s; issued := issued s; unstable_opt := b |}.
+
+Definition init_afs (unst : bool) : afs :=
+  {| objs := {[ ROOT := new_obj KDir 1 ROOT ]}; issued := {[ (ROOT, 1) ]}; unstable_opt := unst |}.
